@@ -130,6 +130,127 @@ def g_ok_clauses(g):
     return out
 
 
+# ---- grammars local to this driver: recursion that passes ONLY through a union / tuple nested in a list or a refinement ----
+from dataclasses import dataclass as _dc
+from typing import Annotated as _Ann, Union as _U
+
+
+class StmtR1(ABC):
+    pass
+
+
+class ExprR1(ABC):
+    pass
+
+
+@_dc
+class SkipR1(StmtR1):
+    n: int
+
+
+@_dc
+class LitR1(ExprR1):
+    v: int
+
+
+@_dc
+class BlockR1(StmtR1):
+    body: list[_U[StmtR1, ExprR1]]
+
+
+class ER2(ABC):
+    pass
+
+
+@_dc
+class LeafR2(ER2):
+    v: int
+
+
+@_dc
+class PairsR2(ER2):
+    ps: list[tuple[ER2, int]]
+
+
+class ER3(ABC):
+    pass
+
+
+@_dc
+class LeafR3(ER3):
+    v: int
+
+
+@_dc
+class SizedR3(ER3):
+    xs: _Ann[list[_U[ER3, LeafR3]], H.LIST_SIZE_HANDLERS[0](1, 2)]
+
+
+@_dc
+class OnceR3(ER3):
+    x: tuple[int, list[LeafR3]]
+
+
+def local_family():
+    return [
+        ("R1-list-of-union", [StmtR1, ExprR1, SkipR1, LitR1, BlockR1], StmtR1, "Block(body: list[Union[Stmt, Expr]]): recursion only through a union inside a list"),
+        ("R2-list-of-tuple", [ER2, LeafR2, PairsR2], ER2, "Pairs(ps: list[tuple[E, int]]): recursion only through a tuple inside a list"),
+        ("R3-sized-list-of-union", [ER3, LeafR3, SizedR3, OnceR3], ER3, "Sized(xs: Annotated[list[Union[E, Leaf]], ListSizeBetween(1,2)]); a non-recursive tuple-with-list production"),
+    ]
+
+
+def gdist_ref(g, ty):
+    """The defining equations of the contract of Grammar.get_distance_to_terminal (specs/typeforms.py: gdist), written
+    independently over typing's own introspection: annotated -> parameter; list -> ed + parameter; union -> ed + min;
+    tuple -> ed + max; otherwise the table entry (ed = 1 iff the grammar counts expansions)."""
+    f = form(ty)
+    ed = int(bool(g.expansion_depthing))
+    if f[0] == "ann":
+        return gdist_ref(g, f[1])
+    if f[0] == "list":
+        return ed + gdist_ref(g, f[1])
+    if f[0] == "union":
+        return ed + min(gdist_ref(g, t) for t in f[1])
+    if f[0] == "tuple":
+        return ed + max(gdist_ref(g, t) for t in f[1])
+    return g.distanceToTerminal[ty]
+
+
+def check_distance_equations(tag, g, view, F: Findings, stats, size):
+    """Bounded stand-in for the contract of get_distance_to_terminal (it decides the contract when a changed body is
+    outside the verifier's reach): every declared field type of the grammar and wrapper forms built over it, in the
+    grammar's own depth mode."""
+    from typing import Annotated, Union
+
+    seen = []
+    for s in view.symbols():
+        if is_abs(s):
+            continue
+        for _n, t in fields_of(s):
+            if t not in seen:
+                seen.append(t)
+    cat = []
+    for t in seen[:8]:
+        cat += [t, list[t], list[list[t]], Annotated[list[t], H.LIST_SIZE_HANDLERS[0](1, 2)], list[Annotated[list[t], H.LIST_SIZE_HANDLERS[0](0, 1)]],
+                tuple[t, list[t]], Annotated[list[list[t]], H.LIST_SIZE_HANDLERS[0](1, 1)]]
+        if seen[0] is not t:
+            cat += [Union[t, seen[0]], list[Union[t, seen[0]]], list[tuple[t, seen[0]]], Union[list[t], seen[0]]]
+    for ty in cat:
+        stats["evaluations"] += 1
+        try:
+            want = gdist_ref(g, ty)
+        except Exception:  # noqa  (a leaf without a table entry: outside the contract's precondition)
+            continue
+        try:
+            got = g.get_distance_to_terminal(ty)
+        except Exception as ex:  # noqa
+            F.add("get_distance_to_terminal:raises-on-defined-type", f"{tag}: get_distance_to_terminal({tname(ty)}) raised {H.exc_text(ex)}", size)
+            continue
+        if got != want:
+            F.add("get_distance_to_terminal:differs-from-defining-equations",
+                  f"{tag}: get_distance_to_terminal({tname(ty)}) = {got}, defining equations (annotated -> parameter, list -> ed + parameter, union -> ed + min, tuple -> ed + max) give {want}", size)
+
+
 def check_grammar(name, classes, start, mode, F: Findings, stats):
     view = GrammarView(classes, start)
     stats["evaluations"] += 1
@@ -192,6 +313,9 @@ def check_grammar(name, classes, start, mode, F: Findings, stats):
         )
     if any(not x for x in exact.values()) and not any(k.startswith("rt:C05:distance:") for k in F.best):
         F.add("distance:unattributed", f"{tag}: reported {[(s.__name__, g.distanceToTerminal.get(s)) for s, x in exact.items() if not x]} differ from independent minimum depths", size)
+
+    # 2a. get_distance_to_terminal against its defining equations on wrapper forms (both depth modes)
+    check_distance_equations(tag, g, view, F, stats, size)
 
     # 2b. the local equations (g_ok of specs/vocab.py) that the create_node / decider proofs ASSUME of the grammar:
     # this is the guarantee side of that assume-guarantee link, checked clause by clause on the real tables
@@ -343,7 +467,7 @@ def harvest(limit_files):
 def run(tier: str, seed: int) -> dict:
     F = Findings("C05")
     stats = {"evaluations": 0, "checked": 0, "skipped": [], "distinct": set(), "family": True}
-    fam = H.full_family()
+    fam = H.full_family() + local_family()
     for name, classes, start, desc in fam:
         for mode in (False, True):
             try:
